@@ -267,7 +267,7 @@ def gen_pair_op(rng, clean, subs):
         c = rng.choice(CEIDS[:3]) if clean else rng.choice(CEIDS)
         dvs = [rng.choice(VIDS[:3] if clean else VIDS) for _ in range(rng.choice([1, 1, 2, 3]) if clean else rng.choice([0, 1, 2, 3]))]
         if not clean and rng.chance(1, 4):
-            return "X" + rng.choice(["n5", "n1000", "n5"]) + ":" + c + "=" + ",".join(dvs)
+            return "X" + rng.choice(["n5", "n1000", "n5", "n0"]) + ":" + c + "=" + ",".join(dvs)
         return "U" + c + "=" + ",".join(dvs)
     if k < 36:
         return "C"
@@ -324,6 +324,10 @@ def pair_history(rig, ops, gen=None):
             st, _ = bounded(lambda: host.subscribe_collection_event(parse_id(c)[1][0], dv_list, rid))
             acks = [e for e in eq.log if e.startswith("k") or e == "x"]
             out = "k" + ",".join(("x" if e == "x" else e[1:]) for e in acks)
+            if op[0] == "X" and out == "k0,0,0" and bad is None and \
+                    (rid not in [plain(k) for k in eq.registered_reports] or rid not in [plain(k) for k in host.report_subscriptions]):
+                bad = (i, "c20c-explicit-report-id", f"{op}: all three requests accepted, but report {rid} asked for by the application is not "
+                       f"the one defined (equipment reports {[plain(k) for k in eq.registered_reports]}, host subscriptions {list(host.report_subscriptions)})")
             if op[0] == "U":
                 if out == "k0,0,0":
                     subs.append((c, dvs.split(","), next_rid))
@@ -374,6 +378,7 @@ def pair_section(res, rng, drv, rig, n_hist, max_len):
     lines, impls, cases = [], [], []
     corpus = [["Un100=n30,n10", "Un101=n10", "Wn30=n99", "Tn101,n7,n100", "Xn5:n100=n30", "Tn100", "C", "Tn100"],
               ["Xn5:n100=n30,n10", "Xn5:n101=n30,n10,n10", "Tn100", "Tn101"],          # the explicit-id witness: S6F0 from the host
+              ["Xn0:n100=n30", "Tn100", "Un101=n10", "Xn0:n101=n30", "Tn101,n100"],       # a falsy explicit id is an explicit id
               ["Un100=n99", "Un99=n10", "Un102=", "Tn100,n99,n102", "Un100=n10", "Un100=n30,n31", "Tn100,n100"]]
     todo = [(ops, None) for ops in corpus]
     for i in range(n_hist):
